@@ -258,7 +258,7 @@ FIXED_ERRORS = [
 ]
 
 
-def campaign(ctx: core.Ctx, tier: str, shard: int, nshards: int) -> None:
+def _campaign(ctx: core.Ctx, tier: str, shard: int, nshards: int) -> None:
     quick = tier == "quick"
     for i, src in enumerate(FIXED_ERRORS):
         if i % nshards == shard:
@@ -271,7 +271,16 @@ def failure_subkey(case, bucket: str) -> str:
     return ""
 
 
-def finish_kwargs(ctx: core.Ctx, tier: str) -> dict:
+def campaign(ctx: core.Ctx, tier: str, shard: int, nshards: int) -> None:
+    _campaign(ctx, tier, shard, nshards)
+    if tier == "thorough":
+        # coverage-guided stage: one libFuzzer campaign per shard with this module's evaluate() as the in-target oracle
+        from .. import fuzz
+
+        fuzz.campaign(ctx, PID, runs=40000, seed=core.sub_seed(ctx.seed, shard, 9))
+
+
+def _finish_kwargs(ctx: core.Ctx, tier: str) -> dict:
     return {
         "rule": (
             "Analysis: generated multi-line templates (text alphabet with LF, CRLF, form feed, U+2028, U+0085, non-ASCII; "
@@ -287,3 +296,13 @@ def finish_kwargs(ctx: core.Ctx, tier: str) -> dict:
         ),
         "assumptions": ["a location 'at the name' means source[index:] starts with the name, or with [ quote name for bracketed roots"],
     }
+
+
+def finish_kwargs(ctx: core.Ctx, tier: str) -> dict:
+    kw = _finish_kwargs(ctx, tier)
+    if tier == "thorough":
+        from .. import fuzz
+
+        kw["rule"] += fuzz.RULE_NOTE
+        kw.setdefault("assumptions", []).append(fuzz.ASSUMPTION)
+    return kw
